@@ -77,6 +77,7 @@ def main():
         gen_tables.generate()
         if hasattr(gen_tables, "generate_extra"):
             gen_tables.generate_extra()
+        gen_tables.generate_struct()
     except Exception:  # noqa
         gen_error = traceback.format_exc()
         broken.append(("translator", "gen_tables failed (fail-closed): " + gen_error[-800:]))
@@ -87,7 +88,9 @@ def main():
         # the build is `make -k`: what matters for THIS property is its own theorem file (compiled again below,
         # which fails if anything it depends on failed) and the correspondence / generated files
         m = sorted(set(re.findall(r"File \"\./([^\"]+)\"", log)))
-        needed = [f for f in m if f.startswith(("Corr/", "Gen/", "Model/")) or f == f"Props/{prop}.v"]
+        # generated obligations about one aspect of the source concern the properties that rest on that aspect
+        scope = {"Gen/Structure.v": {"C01", "C02", "C04", "C09", "C13", "C18"}, "Gen/ApiSurface.v": {"C03"}}
+        needed = [f for f in m if (f.startswith(("Corr/", "Gen/", "Model/")) and prop in scope.get(f, {prop})) or f == f"Props/{prop}.v"]
         if needed:
             broken.append(("coq-build", f"make failed in {needed}: " + log[-1200:]))
     if not ob["ok"]:
